@@ -319,3 +319,28 @@ Definition model_nav (L : Z) (ns : list node) (es : list edge) (o : topts)
   mapM (nav_trace q o s) hists.
 
 Definition zllll_eqb := list_eqb zlll_eqb.
+
+(* ------------------------------------------------------------------------------------ *)
+(* the position on its own                                                                *)
+(* ------------------------------------------------------------------------------------ *)
+
+(* histories of the operations on tsk_tree_position_t as the tree issues them: (0, _) next;
+   (1, _) prev; (2, _) set_null (tsk_tree_clear); (3, i) / (4, i) seek_forward / seek_backward to
+   tree i, which tsk_tree_seek_from_null calls only in the null state and for an existing tree
+   (otherwise the operation is skipped) *)
+Definition pos_op (q : tseq) (p : npos) (op : Z * Z) : res npos :=
+  let '(kind, a) := op in
+  let seekable := (n_index p =? -1) && (0 <=? a) && (a <? q_ntrees q) in
+  if kind =? 0 then do '(p', _) <- npos_next q p; Ok p'
+  else if kind =? 1 then do '(p', _) <- npos_prev q p; Ok p'
+  else if kind =? 2 then Ok (set_null p)
+  else if kind =? 3 then (if seekable then npos_seek_forward q p a else Ok p)
+  else if kind =? 4 then (if seekable then npos_seek_backward q p a else Ok p)
+  else Ok p.
+
+Fixpoint pos_run (q : tseq) (p : npos) (ops : list (Z * Z)) : res npos :=
+  match ops with
+  | [] => Ok p
+  | op :: r => do p' <- pos_op q p op; pos_run q p' r
+  end.
+
